@@ -44,13 +44,15 @@ def decode(wabs, w0, w1, i0, i1, nested, link, stale, force):
     if wabs % 2:
         ws = posixpath.normpath(base + "/" + ws)
     ins = [IN_PATHS[i0]] + ([IN_PATHS[i1]] if i1 != ABSENT else [])
-    return dict(workspace=ws, in_path=ins, nested=bool(nested), link=bool(link), stale=bool(stale), force=bool(force),
-                base=base)
+    # force: bit 0 = --force, bit 1 = --incremental;  stale: 0 none, 1 old files + out-pointing links inside, 2 the workspace's
+    # own src and bak sub-directories are links that point out of it (left by a previous run or placed there)
+    return dict(workspace=ws, in_path=ins, nested=bool(nested), link=bool(link), stale=int(stale), force=bool(force & 1),
+                incremental=bool(force & 2), base=base)
 
 
 def make_options(cfg):
     return types.SimpleNamespace(
-        workspace=cfg["workspace"], in_path=list(cfg["in_path"]), force=cfg["force"], incremental=False, quiet=True,
+        workspace=cfg["workspace"], in_path=list(cfg["in_path"]), force=cfg["force"], incremental=cfg.get("incremental", False), quiet=True,
         lang=["python"], lang_extensions=[".py"], strict_parse_mode=False, nomock=True, enable_header_preprocess=False,
         included_headers=None, default_workspace_dir=lian_config.DEFAULT_WORKSPACE)
 
@@ -75,7 +77,13 @@ def base_tree(fs, cfg, final_ws):
     fs.add_file(f"{base}/ws/w.py", "W")
     fs.add_file(f"{base}/f.py", "F")
     fs.add_file("/outside/o.py", "O")
-    if cfg["stale"]:
+    if cfg["stale"] == 2:
+        fs.add_file("/outside/keep/k.txt", "K")
+        fs.add_file("/outside/mirror/m.py", "M")
+        fs.add_file(posixpath.join(final_ws, "old.txt"), "OLD")
+        fs.add_link(posixpath.join(final_ws, "src"), "/outside/mirror")
+        fs.add_link(posixpath.join(final_ws, "bak"), "/outside/keep")
+    elif cfg["stale"]:
         fs.add_file(posixpath.join(final_ws, "src/old.py"), "OLD")
         fs.add_file(posixpath.join(final_ws, "old.txt"), "OLD")
         # a previous run's workspace may hold links that point out of it
@@ -115,6 +123,8 @@ def run_config(cfg, fuel=600):
         if not under(p, ws_real):
             return f"{op} of {p} outside the workspace {ws_real}"
         if op == "delete" and not cfg["force"]:
+            if cfg.get("incremental") and under(p, posixpath.join(ws_real, "bak")):
+                continue              # incremental mode rotates its own backup directory inside the workspace
             return f"delete of {p} without --force"
     for k, v in before.items():
         if under(k, ws_real):
@@ -130,7 +140,7 @@ def run_config(cfg, fuel=600):
 
 
 def _pre(wabs, w0, w1, i0, i1, nested, link, stale, force):
-    if not (0 <= wabs <= 3 and 0 <= nested <= 1 and 0 <= link <= 1 and 0 <= stale <= 1 and 0 <= force <= 1):
+    if not (0 <= wabs <= 3 and 0 <= nested <= 1 and 0 <= link <= 1 and 0 <= stale <= 2 and 0 <= force <= 3):
         return False
     if not (0 <= w0 < len(WS_COMPS)) or not (w1 == ABSENT or 0 <= w1 < len(WS_COMPS)):
         return False
@@ -213,7 +223,7 @@ def replay(func, cex):
     why = out.get("why")
     return {"violated": bool(why), "observed": why,
             "what": f"workspace option {cfg['workspace']!r}, inputs {cfg['in_path']}, force={cfg['force']}, "
-                    f"stale={cfg['stale']}, nested={cfg['nested']}, symlink={cfg['link']} -> {why}",
+                    f"incremental={cfg.get('incremental', False)}, stale={cfg['stale']}, nested={cfg['nested']}, symlink={cfg['link']} -> {why}",
             "fingerprint": classify(cfg, why or "")}
 
 
